@@ -85,13 +85,15 @@ func H_C13_rmw() {
 	var specs []ruleSpec
 	for i := 0; i < nrules; i++ {
 		rs := ruleSpec{}
-		switch vChoice("rule.fam", 0, 2) {
+		switch vChoice("rule.fam", 0, 3) {
 		case 0:
 			rs.fam = "f"
 		case 1:
 			rs.fam = "g"
 		case 2:
 			rs.fam = "nosuch"
+		case 3:
+			rs.fam = "" // the empty name is an unknown family too
 		}
 		rs.qual = quals[vChoice("rule.qual", 0, 1)]
 		rule := &btpb.ReadModifyWriteRule{FamilyName: rs.fam, ColumnQualifier: rs.qual}
@@ -118,7 +120,7 @@ func H_C13_rmw() {
 	}
 	var touched []*c13Col
 	for _, rs := range specs {
-		if rs.fam == "nosuch" {
+		if rs.fam == "nosuch" || rs.fam == "" {
 			fail = true
 			break
 		}
